@@ -227,42 +227,76 @@ def _unlimit_stack():
             pass
 
 
-def model_run(lines, jobs=None, fuel=None, timeout=900):
-    """Run case lines through the extracted model, in parallel shards; returns output lines."""
+class ModelProc:
+    def __init__(self, env):
+        self.env = env
+        self.start()
+
+    def start(self):
+        self.p = subprocess.Popen([DRIVER], stdin=subprocess.PIPE, stdout=subprocess.PIPE,
+                                  stderr=subprocess.DEVNULL, text=True, env=self.env, bufsize=1,
+                                  preexec_fn=_unlimit_stack)
+
+    def run(self, line, timeout):
+        try:
+            self.p.stdin.write(line + '\n')
+            self.p.stdin.flush()
+        except BrokenPipeError:
+            self.start()
+            self.p.stdin.write(line + '\n')
+            self.p.stdin.flush()
+        r, _, _ = select.select([self.p.stdout], [], [], timeout)
+        if not r:
+            self.p.kill()
+            self.p.wait()
+            self.start()
+            return 'ERR timeout'
+        out = self.p.stdout.readline()
+        if not out:
+            self.p.wait()
+            self.start()
+            return 'ERR crash'
+        return out.rstrip('\n')
+
+    def close(self):
+        try:
+            self.p.stdin.close()
+            self.p.wait(timeout=5)
+        except Exception:
+            self.p.kill()
+
+
+def model_run(lines, jobs=None, fuel=None, timeout=60):
+    """Run case lines through the extracted model (pool of driver processes, per-case
+    watchdog); returns one output line per case."""
     if not lines:
         return []
     jobs = max(1, min(jobs or NPROC, len(lines)))
-    shards = [lines[i::jobs] for i in range(jobs)]
     env = dict(ENV)
     if fuel:
         env['RIMU_FUEL'] = str(fuel)
-    procs = []
-    for sh in shards:
-        p = subprocess.Popen([DRIVER], stdin=subprocess.PIPE, stdout=subprocess.PIPE, stderr=subprocess.PIPE,
-                             text=True, env=env, preexec_fn=_unlimit_stack)
-        procs.append(p)
-    # feed all, then collect (use threads to avoid pipe deadlock)
     import threading
-    outs = [None] * jobs
+    res = [None] * len(lines)
+    idx = [0]
+    lock = threading.Lock()
 
-    def work(i):
+    def work():
+        w = ModelProc(env)
         try:
-            o, e = procs[i].communicate('\n'.join(shards[i]) + '\n', timeout=timeout)
-            outs[i] = o.split('\n')
-        except subprocess.TimeoutExpired:
-            procs[i].kill()
-            o, e = procs[i].communicate()
-            outs[i] = (o or '').split('\n')
-    ths = [threading.Thread(target=work, args=(i,)) for i in range(jobs)]
+            while True:
+                with lock:
+                    i = idx[0]
+                    idx[0] += 1
+                if i >= len(lines):
+                    break
+                res[i] = w.run(lines[i], timeout)
+        finally:
+            w.close()
+    ths = [threading.Thread(target=work) for _ in range(jobs)]
     for t in ths:
         t.start()
     for t in ths:
         t.join()
-    res = [None] * len(lines)
-    for i in range(jobs):
-        o = outs[i]
-        for j, _ in enumerate(shards[i]):
-            res[i + j * jobs] = o[j] if j < len(o) and o[j] != '' else 'ERR no_output'
     return res
 
 
